@@ -257,6 +257,9 @@ pub struct Style {
     /// LF and CR LF mixed within one file (lenient).
     #[serde(default)]
     pub mixed_endings: bool,
+    /// The `#@` expiry stamp predates the newest entries (an unrefreshed header; lenient).
+    #[serde(default)]
+    pub stale_expiry: bool,
 }
 
 fn sep_str(sep: u8, rng: &mut Rng) -> String {
@@ -288,9 +291,16 @@ pub fn render(table: &[Entry], style: &Style, rng: &mut Rng) -> String {
         lines.push("#$\t 3676924800".to_string());
         lines.push("#".to_string());
     }
-    if style.at_line {
+    if style.at_line || style.stale_expiry {
         let last = table.last().map(|e| e.0).unwrap_or(3_692_217_600);
-        lines.push(format!("#@\t{}", last + 204_681_600));
+        let stamp = if style.stale_expiry {
+            // between the third-to-last and the second-to-last entry (or before the only one)
+            let k = table.len().saturating_sub(2);
+            table.get(k).map(|e| e.0.saturating_sub(86_400 * 30)).unwrap_or(last)
+        } else {
+            last + 204_681_600
+        };
+        lines.push(format!("#@\t{stamp}"));
         lines.push("#".to_string());
     }
     if style.blank_lines {
@@ -431,6 +441,7 @@ pub fn random_style(rng: &mut Rng) -> Style {
         long_trailing_comment: 0,
         extra_final_newlines: if rng.chance(1, 6) { rng.urange(1, 3) } else { 0 },
         mixed_endings: false,
+        stale_expiry: false,
     }
 }
 
@@ -502,6 +513,20 @@ pub fn build_pool(shipped_text: String, shipped_table: Vec<Entry>, n_rendered: u
         let (mut table, mut tclass) = random_table(&mut r);
         let mut style = random_style(&mut r);
         let mut far = false;
+        if i % 8 == 4 {
+            // a list that does not start in 1972: the first k entries trimmed away
+            let real = real_table();
+            let k = 1 + (i / 8) % 20;
+            table = real[k..].to_vec();
+            tclass = "suffix";
+        }
+        let stale = i % 16 == 6;
+        if stale {
+            // newly announced entries appended under a header whose expiry line was not refreshed
+            table = extended_table(&mut r, 2, 2031);
+            tclass = "future";
+            style.stale_expiry = true;
+        }
         if i % 16 == 9 {
             // a leap second every half-year until 2035: 65 entries, more than any fixed-size table
             // sized for today's list would hold
@@ -533,7 +558,7 @@ pub fn build_pool(shipped_text: String, shipped_table: Vec<Entry>, n_rendered: u
             big = "+big";
         }
         // One image in eight takes liberties of debatable status; those are judged by O1 only.
-        let mut strict = !far;
+        let mut strict = !far && !stale;
         if i % 8 == 3 {
             // systematic: which liberties a lenient image takes depends on its rank, not on a draw
             let k = i / 8;
@@ -603,7 +628,9 @@ pub fn build_pool(shipped_text: String, shipped_table: Vec<Entry>, n_rendered: u
                 }
             }
             text = out;
-            if text.starts_with('#') && r.chance(1, 2) {
+            // by rank, so that some zero-padded, indented images stay loadable by a loader that
+            // refuses a byte order mark (today's does)
+            if text.starts_with('#') && (i / 16) % 2 == 1 {
                 text.insert(0, '\u{feff}');
             }
             odd = "+zeros";
@@ -646,9 +673,10 @@ pub fn build_pool(shipped_text: String, shipped_table: Vec<Entry>, n_rendered: u
             }
         }
         let class = format!(
-            "{tclass}{}{}{big}{long}{nonutf8}{odd}{}",
+            "{tclass}{}{}{big}{long}{nonutf8}{odd}{}{}",
             if style.crlf { "+crlf" } else { "" },
             if style.final_newline { "" } else { "+nofinalnl" },
+            if style.stale_expiry { "+staleexpiry" } else { "" },
             if strict { "" } else { "+lenient" }
         );
         pool.push(Image {
